@@ -202,3 +202,29 @@ def timeline_value_record(tl):
                 recs.append(timeline_record(ba[0]) if len(ba) == 1 else {"opaque": show(x)[:200]})
             return ("merged", tuple(recs))
     return ("opaque", show(tl)[:300])
+
+
+def pair_paths(pm, pr):
+    """Pair the return paths of the macro body and of the reference body by their branch-decision vectors (both go
+    through the same builder code, so the same decisions arise in the same order).  -> list of (pm_i, pr_i) or None"""
+    a = [p for p in pm if p.outcome == "return"]
+    b = [p for p in pr if p.outcome == "return"]
+    if len(a) != len(b) or not a:
+        return None
+    if len(pm) != len(a) or len(pr) != len(b):
+        # panicking / diverging paths must also correspond in number
+        if len(pm) - len(a) != len(pr) - len(b):
+            return None
+    key = lambda p: tuple(str(v) for (_, v, _) in p.conds)
+    a.sort(key=key)
+    b.sort(key=key)
+    out = []
+    for x, y in zip(a, b):
+        if key(x) != key(y):
+            return None
+        d = {}
+        for (cx, _, _), (cy, _, _) in zip(x.conds, y.conds):
+            if not same(strip(cx), strip(cy), d, "cond"):
+                return None
+        out.append((x, y))
+    return out
